@@ -137,13 +137,13 @@ func init() {
 	for _, inj := range c37Injections {
 		required = append(required, "inject_"+inj)
 	}
-	required = append(required, "kind_basic", "kind_compact", "kind_basic-mutable", "kind_mutable-overlay", "features_validated", "dropped_or_rejected", "clockwise_inverted")
+	required = append(required, "kind_basic", "kind_compact", "kind_basic-mutable", "kind_mutable-overlay", "features_validated", "dropped_or_rejected", "clockwise_inverted", "burst_over_100_invalid")
 	core.Register(&core.Monitor{
 		ID:        "C37",
 		Title:     "Every feature in a world is valid",
 		Technique: "invariant walk: every feature enumerated from built and edited worlds is re-validated by an independent validity predicate",
 		Rule: "case = (world kind basic builder / compact builder / basic-mutable / mutable-overlay, a valid generated feature set plus 1-4 injected features of 12 kinds (11 invalid, one valid control: an area over a path closed by lat/lng literals), " +
-			"in source order or shuffled; for mutable kinds the invalid features arrive as AddFeature calls inside an edit history); distinct = kind + features + injections; " +
+			"and, in one case of five, a burst of 101-180 further invalid paths and areas, in source order or shuffled; for mutable kinds the invalid features arrive as AddFeature calls inside an edit history); distinct = kind + features + injections; " +
 			"non-trivial = at least one injected feature was dropped or rejected",
 		Assumptions: []string{"golang/geo Loop.Validate and Loop.Area decide loop validity and orientation", "clockwise closed paths may be inverted by builders (then they must be counter-clockwise in the world)"},
 		Quick:       300, Thorough: 12000,
@@ -256,6 +256,25 @@ func init() {
 					injected = append(injected, ring, a)
 					invalidIDs = append(invalidIDs, ring.ID, a.ID)
 				}
+			}
+			// a messy source: more invalid features than any fixed-size list a builder might keep
+			if c.Index%5 == 2 {
+				burst := r.Range(101, 180)
+				for i := 0; i < burst; i++ {
+					var p *wm.Spec
+					switch r.Intn(3) {
+					case 0:
+						p = &wm.Spec{ID: g.NewID(b6.FeatureTypePath, b6.NamespaceOSMWay), Path: []wm.Elem{{Ref: core.Pick(r, pts).ID}}}
+					case 1:
+						p = &wm.Spec{ID: g.NewID(b6.FeatureTypePath, b6.NamespaceOSMWay), Path: []wm.Elem{{Ref: core.Pick(r, pts).ID}, {Ref: absentPoint}}}
+					default:
+						p = &wm.Spec{ID: g.NewID(b6.FeatureTypeArea, b6.NamespaceOSMWay), Tags: g.RandomTags(1), Polys: []wm.Poly{{PathIDs: []b6.FeatureID{absentPath}}}}
+					}
+					injected = append(injected, p)
+					invalidIDs = append(invalidIDs, p.ID)
+				}
+				names = append(names, fmt.Sprintf("burst-%d", burst))
+				c.Count("burst_over_100_invalid")
 			}
 			all := append(append([]*wm.Spec{}, valid...), injected...)
 			shuffled := r.Chance(0.5)
